@@ -151,6 +151,12 @@ func (p *Pool) Put(x any) {
 		p.items[n] = x
 	}
 	simhook.Mu.Unlock()
+	// a second scheduling point AFTER the object is in the pool: another task may
+	// take it right now, while the putter goes on - which is when "still using
+	// what was just put back" shows
+	if y := simhook.Yield; y != nil {
+		y(simhook.KPoolPutDone, uintptr(unsafe.Pointer(p)))
+	}
 }
 
 // Get selects an item from the pool, removes it and returns it; on a miss it
